@@ -7,7 +7,7 @@ from hypothesis import strategies as st
 from harness.hyp import drive
 from gens import jwsplan as jp, keys as gk
 from gens.jose import exc_key, KEYFORMS
-from ref import keys as rk
+from ref import keys as rk, b64 as rb
 
 LEVEL = "exploration"
 RULE = ("Hypothesis draws a signing plan (alg in 14 algorithms, key built from generated material incl. special scalars, "
@@ -122,6 +122,19 @@ def run_case(case) -> dict:
                 f[f"C03:attached-unencoded-payload-differs:{tag}"] = f"{o2.payload!r} != {payload!r}"
         except Exception as e:
             f[f"C03:attached-unencoded-verify-raises:{tag}:{exc_key(e)}"] = f"{type(e).__name__}: {e}"
+    # --- a payload whose base64url text also occurs inside the header segment: detaching removes the payload segment, nothing else
+    if ser == "compact" and plan["b64"] is None and not f:
+        try:
+            hseg = token.split(".")[0]
+            k0 = 4 * (len(payload) % max(1, len(hseg) // 4 - 1))
+            p2 = dict(plan, payload_hex=rb.decode(hseg[k0:k0 + 4]).hex())
+            t2, _ = jp.jose_sign(p2, keymode, case.get("form_sign", "dict"))
+            d2 = jws.detach_content(t2)
+            a2, b2 = t2.split("."), d2.split(".")
+            if len(b2) != 3 or b2[0] != a2[0] or b2[2] != a2[2] or b2[1] != "":
+                f["C03:detach-alters-token:compact:payload-text-inside-header"] = f"detach_content({t2[:70]}...) = {d2[:70]}..."
+        except Exception as e:
+            f[f"C03:detach-raises:compact:{exc_key(e)}"] = f"{type(e).__name__}: {e}"
     # --- detach_content (appendix F)
     if plan["b64"] is None:
         try:
